@@ -130,7 +130,13 @@ class _SocksMachine(object):
         # wrong. but I also don't want a bunch of "received 1 byte"
         # etc states hanging off everything that can "get data"
         self._data += data
-        self.got_data()
+        # a single chunk can carry more than one message (the method
+        # reply and the request reply, or a reply and the first
+        # relayed bytes): keep going while input is being consumed
+        remaining = None
+        while self._data and len(self._data) != remaining:
+            remaining = len(self._data)
+            self.got_data()
 
     @_machine.output()
     def _parse_version_reply(self):
